@@ -23,7 +23,7 @@ def plan(tier, seed):
     sc = catalog.scalars()
     if tier == "quick":
         ops = [L[n] for n in ["D22", "D23", "D32c", "Dg2c", "I2", "Sc2", "Dg2"]] + [arrs["A22"], arrs["A23"]]
-        seeds2 = [L[n] for n in ["D22c", "D23", "Dg2", "I2", "Sc2", "Hc22", "P3", "R0", "I3",
+        seeds2 = [L[n] for n in ["D22c", "D23", "Dg2", "I2", "Sc2", "P3", "R0",
                                  "Sc3", "TL22"]]
         small = [L["D22c"], L["Dg2"], arrs["A22"]]
         return [
